@@ -399,6 +399,9 @@ let () =
         let u = List.map (fun b -> n_of_int (ai b)) bytes in
         let (o, ok) = m4 (Top []) u in
         Printf.printf "m4raw out=%s ok=%b\n" (String.concat "," (List.map (fun b -> string_of_int (int_of_n b)) o)) ok
+      | L [A "requests"; size; L ntms] ->
+        let rs = requests (nat_of_int (ai size)) (List.map (fun x -> nat_of_int (ai x)) ntms) in
+        Printf.printf "requests %s\n" (String.concat " " (List.map (fun x -> string_of_int (int_of_nat x)) rs))
       | L [A "warncheck"; mode; fuel] ->
         (* mode 0: first-rule selection; 1: REJECT / variable trailing context (every matching rule may be reached) *)
         let rejmode = ab mode in
